@@ -63,6 +63,11 @@ def scenarios(tier):
                "root_faults_from": 1})
     sc.append({"name": "stdin-inputs", "world": w.to_json(), "roots": ["r1", "r2", "r2/s/c", "r3"], "gargs": [], "kind": "ssd", "knobs": KNOBS,
                "root_faults_from": 0, "stdin_roots": True})
+    # --one-fs: every directory is stat'ed for its device - one more call position per directory
+    w = World()
+    w.add_file("t/x", _c(13, 90)); w.add_file("t/y", _c(13, 90)); w.add_file("t/bad/p", _c(14, 50)); w.add_file("t/bad/q", _c(14, 50))
+    w.add_file("t/ok/r", _c(15, 70)); w.add_file("t/ok/s", _c(15, 70)); w.add_file("t/ok/deep/u", _c(13, 90))
+    sc.append({"name": "one-fs", "world": w.to_json(), "roots": ["t"], "gargs": ["--one-fs"], "kind": "ssd", "knobs": KNOBS})
     if tier == "thorough":
         w = World()
         for i in range(3):
